@@ -162,6 +162,22 @@ def enclosing_loops(prov, fn, bid):
     return out
 
 
+def loops_of(prov, fn):
+    """every loop driven by an iterator in `fn`: [(block of the next() call, iterator origin as written)]"""
+    return [(nb, prov.call_args(fn, t, nb)[0]) for nb, t in fn.calls()
+            if t["callee"]["key"] in ("std::iter::Iterator::next", "std::iter::DoubleEndedIterator::next_back")]
+
+
+def chain_adapters(src):
+    """names of the iterator adapters between the loop and the collection it walks (outermost first)"""
+    out = []
+    o = peel(src)
+    while o[0] == "call" and o[1].startswith(("std::iter::Iterator::", "std::iter::DoubleEndedIterator::")) and o[2]:
+        out.append(o[1].rsplit("::", 1)[-1])
+        o = peel(o[2][0])
+    return out
+
+
 def filter_conditions(prov, facts, src):
     """conditions every element yielded by iterator `src` satisfies because of `.filter(p)` adapters in its chain:
     [(None, ("bool", norm_cond))] in the format of dominating_conditions"""
